@@ -26,7 +26,7 @@ void use(AR& a, SA& s, TS& t, MM& m, DT& d)
 {
 	auto it = a.GetBegin(); it += 1; (void)it.operator->();
 	a.Remove(0, 1); a.Insert(0, 1, 5); a.Insert(0, 5); a.RemoveBack(1); (void)a[0];
-	s.Remove(0, 1); (void)s[0]; s.RemoveBack(1);
+	s.Remove(0, 1); (void)s[0]; s.RemoveBack(1); s.Insert(0, 1, 5);
 	auto ti = t.GetBegin(); ++ti; --ti; (void)ti.operator->();
 	m.Remove(m.Find(1), 0); (void)m.MakeIterator(m.Find(1), 0);
 	auto sel = d.Select(); sel.Remove(0, 1); (void)sel[0]; (void)d[0]; d.Remove(size_t(0)); d.InsertRow(0, c1 = 1); d.Update(size_t(0), d.NewRow());
